@@ -31,7 +31,8 @@ Apply(o) ==
     ELSE IF o.op = "mark" THEN [st |-> MarkF(st, o.c), out |-> "ok", trades |-> <<>>]
     ELSE IF o.op = "markall" THEN [st |-> MarkAllF(st), out |-> "ok", trades |-> <<>>]
     ELSE IF o.op = "value" THEN LET r == ValueF(st, o.flag) IN [st |-> r.st, out |-> r.out, trades |-> <<>>]
-    ELSE LET r == RebalanceF(st, [alloc |-> o.alloc, measure |-> o.measure, thr |-> o.thr, fractional |-> o.fractional], o.t)
+    ELSE LET r == RebalanceF(st, [alloc |-> o.alloc, measure |-> o.measure, thr |-> o.thr, fractional |-> o.fractional,
+                              absolute |-> TRUE], o.t)
          IN  [st |-> r.st, out |-> r.out, trades |-> r.trades]
 
 Step ==
